@@ -5,6 +5,7 @@ import (
 	"fmt"
 	"hash/fnv"
 	"math/rand"
+	"regexp"
 	"runtime"
 	"sort"
 	"strings"
@@ -192,6 +193,14 @@ func c18copyCtx(m map[string]stick.Value) map[string]stick.Value {
 	return c
 }
 
+var c18ptrRe = regexp.MustCompile(`0x[0-9a-f]{6,}`)
+
+// c18errText is the error's text with pointer values masked: an error that prints a Go value with %v shows
+// the addresses of this call's own copies of the context values.
+func c18errText(err error) string {
+	return c18ptrRe.ReplaceAllString(err.Error(), "0xPTR")
+}
+
 // c18ctxAt returns context ci; index len(c18Ctx) is "no context at all" (nil map).
 func c18ctxAt(ci int) map[string]stick.Value {
 	if ci >= len(c18Ctx) {
@@ -219,7 +228,7 @@ func c18doErr(env *stick.Env, op int, name string, ctx map[string]stick.Value) (
 		if op == 1 {
 			t, err := env.Parse(name)
 			if err != nil {
-				e.err, errObj = err.Error(), err
+				e.err, errObj = c18errText(err), err
 			} else {
 				e.out = t.Root().String()
 			}
@@ -227,7 +236,7 @@ func c18doErr(env *stick.Env, op int, name string, ctx map[string]stick.Value) (
 		}
 		var buf bytes.Buffer
 		if err := env.Execute(name, &buf, ctx); err != nil {
-			e.err, errObj = err.Error(), err
+			e.err, errObj = c18errText(err), err
 		}
 		e.out = buf.String()
 	}()
@@ -390,7 +399,7 @@ func (p *c18) Run(i int) (res fw.Result) {
 	wg.Wait()
 	for g := range held {
 		for _, h := range held[g] {
-			if now := h.err.Error(); now != h.text {
+			if now := c18errText(h.err); now != h.text {
 				res.Fail("error-changed-after-return", "c18:heldError", fmt.Sprintf("round %d: an error that read %q when the call returned reads %q after the other calls have finished", i, clip(h.text, 200), clip(now, 200)), nil)
 			}
 		}
